@@ -593,6 +593,9 @@ class HashChecker(ProgMixin):
                 self.pieces = self.piece_layers[self.root_hash]
             else:
                 self.pieces = self.root_hash
+            # the decoder returns text for byte strings that are valid UTF-8
+            if isinstance(self.pieces, str):
+                self.pieces = self.pieces.encode("utf-8")
             path = self.paths[self.index]
             self.progbar = self.get_progress_tracker(self.length, path)
             self.count = 0
